@@ -896,6 +896,11 @@ class sptensor:
         3.0
         """
         # If all entries are zero innerproduct must be 0
+        if isinstance(other, ttb.sptensor) and self.shape != other.shape:
+            assert False, "Sptensors must be same shape for innerproduct"
+        if isinstance(other, ttb.tensor) and self.shape != other.shape:
+            assert False, "Sptensor and tensor must be same shape for innerproduct"
+
         if self.nnz == 0:
             return 0
 
